@@ -8,6 +8,7 @@
 #include <stdarg.h>
 #include <string.h>
 #include <sys/stat.h>
+#include <sys/sysmacros.h>
 #include <sys/uio.h>
 #include <unistd.h>
 
@@ -40,6 +41,7 @@ struct FakeDir {
   size_t pos = 0;
   struct dirent ent;
   int owned_fd = -1; // fdopendir(): the directory stream owns this descriptor and closes it in closedir()
+  std::string path; // for dirfd(): descriptors relative to this directory
 };
 static std::set<FakeDir*> g_dirs;
 
@@ -319,6 +321,7 @@ uint64_t urandom_consumed() { return g_urandom_pos; }
 void set_stdio_buffering(size_t mode) { g_world.stdio_buffering = mode; }
 void urandom_open_returns_fd0(bool enable) { g_urandom_fd0_next = enable; }
 void urandom_open_fails(int times) { g_urandom_open_failures = times; }
+
 void set_urandom_script(const std::vector<int>& script) {
   g_urandom_script = script;
   g_urandom_script_pos = 0;
@@ -326,6 +329,27 @@ void set_urandom_script(const std::vector<int>& script) {
   g_urandom_pos = 0;
 }
 size_t urandom_script_used() { return g_urandom_script_pos; }
+// state of the simulated device that a harness may save and restore (see sim_rand: resynchronising two passes)
+void urandom_get_state(uint64_t& pos, size_t& script_pos) {
+  pos = g_urandom_pos;
+  script_pos = g_urandom_script_pos;
+}
+void urandom_set_state(uint64_t pos, size_t script_pos) {
+  g_urandom_pos = pos;
+  g_urandom_script_pos = script_pos;
+}
+static std::vector<int> g_urandom_script_saved;
+static bool g_urandom_script_suspended = false;
+void urandom_script_suspend(bool on) {
+  if (on && !g_urandom_script_suspended) {
+    g_urandom_script_saved = g_urandom_script;
+    g_urandom_script.clear();
+    g_urandom_script_suspended = true;
+  } else if (!on && g_urandom_script_suspended) {
+    g_urandom_script = g_urandom_script_saved;
+    g_urandom_script_suspended = false;
+  }
+}
 
 // ------------------------------------------------------------------ core read/write on an OpenFile
 
@@ -760,6 +784,7 @@ ssize_t __wrap_read(int fd, void* buf, size_t n) {
 }
 
 ssize_t __wrap_pread(int fd, void* buf, size_t n, off_t off) {
+  if (fd == URANDOM_FD || (fd == 0 && g_urandom_fd0)) return urandom_read(buf, n); // a character device ignores the offset
   if (!is_virtual(fd)) return __real_pread(fd, buf, n, off);
   OpenFile* of = live_fd(fd);
   if (!of) return -1;
@@ -968,6 +993,14 @@ static void fill_stat(const Inode& n, struct stat* st) {
 }
 
 int __wrap_fstat(int fd, struct stat* st) {
+  if (fd == URANDOM_FD || (fd == 0 && g_urandom_fd0)) {
+    memset(st, 0, sizeof(*st));
+    st->st_mode = S_IFCHR | 0666;
+    st->st_rdev = makedev(1, 9);
+    st->st_nlink = 1;
+    st->st_blksize = 4096;
+    return 0;
+  }
   if (!is_virtual(fd)) return __real_fstat(fd, st);
   OpenFile* of = live_fd(fd);
   if (!of) return -1;
@@ -1051,11 +1084,49 @@ int __wrap_poll(struct pollfd* pfds, nfds_t n, int timeout) {
 // them (lseek, the *at family relative to AT_FDCWD or to a simulated directory descriptor, readv/writev,
 // ftruncate, ppoll) is judged on what it does, not on which call it uses
 
+// The kernel's other door to the same entropy: getrandom()/getentropy() are served from the simulated device
+// (same stream, same script of short reads and errors) once an engine has switched that on; elsewhere untouched.
+static bool g_getrandom_simulated = false;
+} // extern "C"
+namespace vfs {
+void simulate_getrandom(bool on) { g_getrandom_simulated = on; }
+} // namespace vfs
+extern "C" {
+ssize_t __real_getrandom(void*, size_t, unsigned);
+ssize_t __wrap_getrandom(void* buf, size_t n, unsigned flags) {
+  if (!g_getrandom_simulated) return __real_getrandom(buf, n, flags);
+  // (EIO does not exist for getrandom: a scripted device error is delivered as EINTR, which does)
+  ssize_t r = urandom_read(buf, n);
+  if (r < 0 && errno == EIO) errno = EINTR;
+  return r;
+}
+int __real_getentropy(void*, size_t);
+int __wrap_getentropy(void* buf, size_t n) {
+  if (!g_getrandom_simulated) return __real_getentropy(buf, n);
+  if (n > 256) {
+    errno = EIO;
+    return -1;
+  }
+  size_t off = 0;
+  while (off < n) { // getentropy never returns short
+    ssize_t r = urandom_read((char*)buf + off, n - off);
+    if (r < 0 && errno == EINTR) continue;
+    if (r <= 0) {
+      errno = EIO;
+      return -1;
+    }
+    off += r;
+  }
+  return 0;
+}
+
 int __wrap_unlink(const char* path);
 int __wrap_rmdir(const char* path);
+static bool is_urandom_fd(int fd) { return fd == URANDOM_FD || (fd == 0 && g_urandom_fd0); }
 
 off_t __real_lseek(int, off_t, int);
 off_t __wrap_lseek(int fd, off_t off, int whence) {
+  if (is_urandom_fd(fd)) return 0; // seeking a character device succeeds and means nothing
   if (!is_virtual(fd)) return __real_lseek(fd, off, whence);
   OpenFile* of = live_fd(fd);
   if (!of) return -1;
@@ -1151,7 +1222,7 @@ int __wrap_unlinkat(int dirfd, const char* path, int flags) {
 
 ssize_t __real_readv(int, const struct iovec*, int);
 ssize_t __wrap_readv(int fd, const struct iovec* iov, int n) {
-  if (!is_virtual(fd)) return __real_readv(fd, iov, n);
+  if (!is_virtual(fd) && !is_urandom_fd(fd)) return __real_readv(fd, iov, n);
   size_t total = 0;
   for (int i = 0; i < n; i++) total += iov[i].iov_len;
   std::string tmp(total, '\0');
@@ -1199,6 +1270,7 @@ DIR* __wrap_opendir(const char* path) {
     return nullptr;
   }
   FakeDir* d = new_fake_dir(n);
+  d->path = path;
   vsim::ev("opendir", d->names.size());
   return (DIR*)d;
 }
@@ -1215,6 +1287,7 @@ DIR* __wrap_fdopendir(int fd) {
   }
   FakeDir* d = new_fake_dir(of->ino);
   d->owned_fd = fd;
+  d->path = of->path;
   vsim::ev("fdopendir", d->names.size());
   return (DIR*)d;
 }
@@ -1265,6 +1338,33 @@ int __wrap_closedir(DIR* dir) {
   delete d;
   if (owned >= 0) return __wrap_close(owned); // closedir() closes the descriptor handed to fdopendir()
   return 0;
+}
+
+int __real_dirfd(DIR*);
+int __wrap_dirfd(DIR* dir) {
+  FakeDir* d = (FakeDir*)dir;
+  if (!g_dirs.count(d)) return __real_dirfd(dir);
+  if (d->owned_fd < 0) d->owned_fd = alloc_fd(d->ino, O_RDONLY | O_DIRECTORY, d->path);
+  return d->owned_fd;
+}
+
+int __real_scandir(const char*, struct dirent***, int (*)(const struct dirent*), int (*)(const struct dirent**, const struct dirent**));
+int __wrap_scandir(const char* path, struct dirent*** out, int (*filter)(const struct dirent*), int (*compar)(const struct dirent**, const struct dirent**)) {
+  if (!is_sim_path(path)) return __real_scandir(path, out, filter, compar);
+  DIR* d = __wrap_opendir(path);
+  if (!d) return -1;
+  std::vector<struct dirent*> v;
+  while (struct dirent* e = __wrap_readdir(d)) {
+    if (filter && !filter(e)) continue;
+    struct dirent* c = (struct dirent*)malloc(sizeof(struct dirent));
+    memcpy(c, e, sizeof(struct dirent));
+    v.push_back(c);
+  }
+  __wrap_closedir(d);
+  if (compar) std::sort(v.begin(), v.end(), [&](struct dirent* a, struct dirent* b) { return compar((const struct dirent**)&a, (const struct dirent**)&b) < 0; });
+  *out = (struct dirent**)malloc(sizeof(struct dirent*) * (v.size() ? v.size() : 1));
+  for (size_t i = 0; i < v.size(); i++) (*out)[i] = v[i];
+  return (int)v.size();
 }
 
 int __wrap_unlink(const char* path) {
